@@ -110,30 +110,118 @@ Proof.
   split; [assumption | apply IH, B].
 Qed.
 
-Theorem levels_increasing : forall fp two_pass o sizes input sum levels cs,
-  bb_file fp two_pass o sizes input = Ok (sum, levels, cs) -> sincr (map fst levels).
+(* positivity: zeros are filtered out of manual lists, the ladders start at 10 *)
+Lemma insert_pos : forall x acc, 0 < x -> Forall (fun y => 0 < y) acc -> Forall (fun y => 0 < y) (insert_sorted x acc).
+Proof.
+  intros x acc Hx. induction acc as [|y acc' IH]; intro Ha; cbn [insert_sorted]; [constructor; [assumption|constructor]|].
+  inversion Ha; subst. destruct (x <? y); [constructor; assumption|]. destruct (x =? y); [assumption|].
+  constructor; [assumption | now apply IH].
+Qed.
+Lemma sort_dedup_pos : forall l, Forall (fun x => 0 < x) l -> Forall (fun x => 0 < x) (sort_dedup l).
+Proof.
+  intros l Hl. unfold sort_dedup.
+  assert (G : forall l acc, Forall (fun x => 0 < x) l -> Forall (fun x => 0 < x) acc ->
+              Forall (fun x => 0 < x) (fold_left (fun acc x => insert_sorted x acc) l acc)).
+  { induction l0 as [|x r IHl]; intros acc H Ha; cbn [fold_left]; [assumption|].
+    inversion H; subst. apply IHl; [assumption | now apply insert_pos]. }
+  apply G; [assumption | constructor].
+Qed.
+Lemma filter_nonzero_pos : forall l, Forall (fun x => 0 < x) (filter (fun z => negb (z =? 0)) l).
+Proof.
+  intro l. rewrite Forall_forall. intros x Hx. apply filter_In in Hx. destruct Hx as (_ & Hx).
+  destruct (N.eqb_spec x 0); [discriminate | lia].
+Qed.
+Lemma sincr_pos_gt0 : forall l, sincr l -> Forall (fun x => 0 < x) l -> incr_gt 0 l.
+Proof. intros [|x r] Hs Hp; cbn [sincr incr_gt] in *; [exact I|]. inversion Hp; subst. tauto. Qed.
+Lemma incr_gt_pos : forall l lo, incr_gt lo l -> Forall (fun x => lo < x) l.
+Proof.
+  induction l as [|x r IH]; intros lo H; cbn [incr_gt] in *; [constructor|]. destruct H as (A & B).
+  constructor; [assumption|]. eapply Forall_impl; [|apply IH, B]. cbn beta. intros; lia.
+Qed.
+
+Lemma single_gt0 : forall o, incr_gt 0 (zoom_sizes_single o).
+Proof.
+  intro o. apply sincr_pos_gt0; [apply single_sincr|]. unfold zoom_sizes_single.
+  apply Forall_firstn', sort_dedup_pos, filter_nonzero_pos.
+Qed.
+Lemma two_pass_gt0 : forall o sum outs data_size, incr_gt 0 (zoom_sizes_two_pass o sum (total_zoom_counts outs) data_size).
+Proof.
+  intros o sum outs data_size. unfold zoom_sizes_two_pass. destruct (o_manual o).
+  - apply sincr_pos_gt0; [apply firstn_sincr, sort_dedup_sincr | apply Forall_firstn', sort_dedup_pos, filter_nonzero_pos].
+  - apply take_while_gt, firstn_gt, skip_while_gt, skip_while_gt.
+    unfold total_zoom_counts. rewrite map_map. cbn [fst]. rewrite map_id.
+    unfold total_ladder. apply ladder_gt; unfold ZOOM_COUNT_FIRST; lia.
+Qed.
+
+Theorem levels_gt0 : forall fp two_pass o sizes input sum levels cs,
+  bb_file fp two_pass o sizes input = Ok (sum, levels, cs) -> incr_gt 0 (map fst levels).
 Proof.
   intros fp two_pass o sizes input sum levels cs H. unfold bb_file in H.
   destruct input as [|it input']; [discriminate|].
   destruct (bb_process_runs _ _ _ _ _) as [[ids cs1]| | |]; cbn [rbind] in H; try discriminate.
   destruct two_pass.
   - destruct (mapM _ _) as [lv| | |] eqn:Em; cbn [rbind] in H; try discriminate.
-    inversion H; subst. rewrite (mapM_fst _ _ _ _ _ Em). apply two_pass_sincr.
+    inversion H; subst. rewrite (mapM_fst _ _ _ _ _ Em). apply two_pass_gt0.
   - destruct (mapM _ _) as [lv| | |] eqn:Em; cbn [rbind] in H; try discriminate.
-    inversion H; subst. pose proof (mapM_fst _ _ _ _ _ Em) as Hf. pose proof (single_sincr o) as Hs. rewrite <- Hf in Hs.
-    destruct lv as [|z rest]; [exact I|].
-    apply (incr_gt_sincr _ 0). apply select_single_gt. cbn [map incr_gt sincr] in *. split; [|exact Hs].
-    (* the first size is positive: zeros are filtered out before sorting *)
-    assert (Hpos : Forall (fun x => 0 < x) (zoom_sizes_single o)).
-    { unfold zoom_sizes_single, sort_dedup.
-      assert (G : forall l acc, Forall (fun x => 0 < x) l -> Forall (fun x => 0 < x) acc ->
-                  Forall (fun x => 0 < x) (fold_left (fun acc x => insert_sorted x acc) l acc)).
-      { induction l as [|x r IHl]; intros acc Hl Ha; cbn [fold_left]; [assumption|].
-        inversion Hl; subst. apply IHl; [assumption|]. clear IHl.
-        induction acc as [|y acc' IHa]; cbn [insert_sorted]; [constructor; [assumption|constructor]|].
-        inversion Ha; subst. destruct (x <? y); [constructor; assumption|]. destruct (x =? y); [assumption|].
-        constructor; [assumption | now apply IHa]. }
-      apply Forall_firstn'. apply G; [|constructor]. rewrite Forall_forall. intros x Hx. apply filter_In in Hx. destruct Hx as (_ & Hx).
-      destruct (N.eqb_spec x 0); [discriminate | lia]. }
-    rewrite <- Hf in Hpos. inversion Hpos; subst. assumption.
+    inversion H; subst. apply select_single_gt. rewrite (mapM_fst _ _ _ _ _ Em). apply single_gt0.
+Qed.
+
+Theorem levels_increasing : forall fp two_pass o sizes input sum levels cs,
+  bb_file fp two_pass o sizes input = Ok (sum, levels, cs) -> sincr (map fst levels).
+Proof. intros. eapply incr_gt_sincr, levels_gt0. eassumption. Qed.
+
+Theorem levels_positive : forall fp two_pass o sizes input sum levels cs,
+  bb_file fp two_pass o sizes input = Ok (sum, levels, cs) -> Forall (fun l => 1 <= fst l) levels.
+Proof.
+  intros. pose proof (incr_gt_pos _ _ (levels_gt0 _ _ _ _ _ _ _ _ H)) as Hp.
+  rewrite Forall_forall in *. intros l Hl. specialize (Hp (fst l) (in_map fst _ _ Hl)). cbn beta in Hp. lia.
+Qed.
+
+(* every level written consists, chromosome by chromosome in stream order, of the sections
+   bb_zoom_records yields for that chromosome at the level's resolution *)
+Definition level_from (fp : fpmode) (o : opts) (cs : list bchrom) (l : level) : Prop :=
+  exists per, Forall2 (fun c secs => bb_zoom_records fp (o_ips o) (fst l) (bc_id c) (bc_es c) = Ok secs) cs per /\
+              snd l = concat per.
+
+Lemma concat_res_spec : forall {X Y} (f : X -> res (list Y)) xs out, concat_res (map f xs) = Ok out ->
+  exists per, Forall2 (fun x s => f x = Ok s) xs per /\ out = concat per.
+Proof.
+  intros X Y f. induction xs as [|x r IH]; intros out H; unfold concat_res in *; cbn [map fold_right] in H.
+  - inversion H. exists []. split; [constructor | reflexivity].
+  - destruct (f x) as [a| | |] eqn:Ef; cbn [rbind] in H; try discriminate.
+    destruct (fold_right _ _ _) as [b| | |] eqn:Er; cbn [rbind] in H; try discriminate.
+    inversion H; subst. destruct (IH b eq_refl) as (per & A & B). exists (a :: per).
+    split; [constructor; assumption | cbn [concat]; now rewrite B].
+Qed.
+
+Lemma mapM_level_from : forall fp o cs sizes levels, mapM (level_of fp o cs) sizes = Ok levels ->
+  Forall (level_from fp o cs) levels.
+Proof.
+  intros fp o cs. induction sizes as [|s r IH]; intros levels H; cbn [mapM] in H.
+  - inversion H. constructor.
+  - unfold level_of at 1 in H. destruct (concat_res _) as [secs| | |] eqn:Ec; cbn [rbind] in H; try discriminate.
+    destruct (mapM (level_of fp o cs) r) as [ys| | |] eqn:Em; cbn [rbind] in H; try discriminate.
+    inversion H; subst. constructor; [|now apply IH].
+    destruct (concat_res_spec _ _ _ Ec) as (per & A & B). exists per. cbn [fst snd]. split; assumption.
+Qed.
+
+Lemma select_single_sub : forall o ds zs lc zc (P : level -> Prop), Forall P zs -> Forall P (select_single o ds zs lc zc).
+Proof.
+  intros o ds. induction zs as [|z rest IH]; intros lc zc P H; cbn [select_single]; [constructor|].
+  inversion H; subst.
+  destruct (_ && (ds / 2 <? _)); [now apply IH|].
+  destruct (_ && match lc with None => false | Some l => l <=? _ end); [now apply IH|].
+  destruct (_ && (o_maxzooms o <=? zc + 1)); [constructor; [assumption | constructor]|].
+  constructor; [assumption | now apply IH].
+Qed.
+
+Theorem levels_from_records : forall fp two_pass o sizes input sum levels cs,
+  bb_file fp two_pass o sizes input = Ok (sum, levels, cs) -> Forall (level_from fp o cs) levels.
+Proof.
+  intros fp two_pass o sizes input sum levels cs H. unfold bb_file in H.
+  destruct input as [|it input']; [discriminate|].
+  destruct (bb_process_runs _ _ _ _ _) as [[ids cs1]| | |]; cbn [rbind] in H; try discriminate.
+  destruct two_pass; destruct (mapM _ _) as [lv| | |] eqn:Em; cbn [rbind] in H; try discriminate; inversion H; subst.
+  - eapply mapM_level_from; eassumption.
+  - apply select_single_sub. eapply mapM_level_from; eassumption.
 Qed.
